@@ -170,6 +170,7 @@ type weaver struct {
 	nTmp    int
 
 	needSelectN bool
+	captured    map[*types.Var]bool
 }
 
 func (w *weaver) info() *types.Info { return w.pkg.TypesInfo }
@@ -233,6 +234,7 @@ func (w *weaver) file(f *ast.File, name string) {
 			}
 		}
 	}
+	w.findCaptured(f)
 	for _, d := range f.Decls {
 		fd, ok := d.(*ast.FuncDecl)
 		if !ok || fd.Body == nil {
@@ -240,6 +242,59 @@ func (w *weaver) file(f *ast.File, name string) {
 		}
 		fd.Body.List = w.stmts(fd.Body.List)
 	}
+}
+
+// findCaptured collects the local variables that a function literal which may
+// run on another goroutine (the function of a go statement, an argument of a
+// call, a returned or stored function value) shares with its surroundings.
+// Their accesses are annotated like accesses to struct fields.
+func (w *weaver) findCaptured(f *ast.File) {
+	if w.captured == nil {
+		w.captured = map[*types.Var]bool{}
+	}
+	var stack []ast.Node
+	ast.Inspect(f, func(n ast.Node) bool {
+		if n == nil {
+			stack = stack[:len(stack)-1]
+			return true
+		}
+		stack = append(stack, n)
+		lit, ok := n.(*ast.FuncLit)
+		if !ok || len(stack) < 2 {
+			return true
+		}
+		escaping := true
+		switch p := stack[len(stack)-2].(type) {
+		case *ast.CallExpr:
+			if p.Fun == lit && len(stack) >= 3 {
+				// func(){...}() called on the spot: only a go statement runs it elsewhere
+				_, isGo := stack[len(stack)-3].(*ast.GoStmt)
+				escaping = isGo
+			}
+		}
+		if !escaping {
+			return true
+		}
+		ast.Inspect(lit.Body, func(m ast.Node) bool {
+			id, ok := m.(*ast.Ident)
+			if !ok {
+				return true
+			}
+			v, ok := w.info().Uses[id].(*types.Var)
+			if !ok || v.IsField() || v.Pkg() != w.pkg.Types || v.Parent() == w.pkg.Types.Scope() {
+				return true
+			}
+			if v.Pos() >= lit.Pos() && v.Pos() <= lit.End() {
+				return true // declared inside the literal
+			}
+			if isSyncType(v.Type()) {
+				return true
+			}
+			w.captured[v] = true
+			return true
+		})
+		return true
+	})
 }
 
 func (w *weaver) noteHB(s string) {
@@ -421,12 +476,19 @@ func (w *weaver) stmt(s ast.Stmt) (before []ast.Stmt, repl ast.Stmt, after []ast
 		if s.Cond != nil {
 			s.Cond = w.expr(s.Cond)
 		}
+		var postAcc []ast.Stmt
 		if s.Post != nil {
+			pb, pa := w.accStmts(s.Post)
+			postAcc = append(pb, pa...)
 			if b := w.header(s.Post); len(b) > 0 {
 				before = append(before, b...)
 			}
 		}
 		w.block(s.Body)
+		if len(postAcc) > 0 {
+			// the post statement's accesses (a shared loop variable), once per iteration
+			s.Body.List = append(s.Body.List, postAcc...)
+		}
 	case *ast.RangeStmt:
 		if t := w.info().TypeOf(s.X); t != nil {
 			if _, ok := t.Underlying().(*types.Chan); ok {
@@ -1323,8 +1385,15 @@ func (w *weaver) collect(s ast.Stmt) []acc {
 			name = rn + v.Name()
 		case *ast.Ident:
 			v, ok := w.info().Uses[x].(*types.Var)
-			if !ok || v.Pkg() != w.pkg.Types || v.Parent() != w.pkg.Types.Scope() || isSyncType(v.Type()) {
+			if !ok || v.Pkg() != w.pkg.Types || isSyncType(v.Type()) {
 				return
+			}
+			if v.Parent() != w.pkg.Types.Scope() {
+				if !w.captured[v] {
+					return
+				}
+				name = "local " + v.Name()
+				break
 			}
 			name = v.Name()
 		default:
